@@ -132,6 +132,8 @@ pub struct Printer<'a> {
     brackets: usize,
     /// > 0 while an atom must be printed bare (callee names, assignment targets)
     no_atom_parens: usize,
+    /// > 0 while the head of an assignment target is printed (calls there are written in the plain form)
+    plain_calls: usize,
     unreachable_lines: HashMap<u32, usize>,
     sites: SiteCounts,
     annot_taken: Vec<bool>,
@@ -226,6 +228,7 @@ impl<'a> Printer<'a> {
             sugar_depth: 0,
             brackets: 0,
             no_atom_parens: 0,
+            plain_calls: 0,
             unreachable_lines: HashMap::new(),
             sites: SiteCounts::default(),
             annot_taken: Vec::new(),
@@ -439,7 +442,8 @@ impl<'a> Printer<'a> {
 
     fn paren_opt(&mut self, s: String) -> String {
         let c = take(&self.plan.parens, &mut self.cur.parens);
-        if c & 1 == 1 {
+        // (the head of an assignment target is not parenthesisable: `(f(1)).a = 2` is a syntax error)
+        if c & 1 == 1 && self.plain_calls == 0 {
             self.sites.parens_added += 1;
             format!("({})", s)
         } else {
@@ -533,6 +537,16 @@ impl<'a> Printer<'a> {
         self.sites.call += 1;
         let form = take(&self.plan.callform, &mut self.cur.callform) % 4;
         let nested = self.sugar_depth > 0;
+        // a call at the head of an assignment target is written `f(..)`: `(f' x).a = 1` is not an assignable
+        let saved_plain = self.plain_calls;
+        let form = if saved_plain > 0 { 0 } else { form };
+        self.plain_calls = 0;
+        let text = self.call_text_form(form, nested, callee, simple_callee, args, tail);
+        self.plain_calls = saved_plain;
+        text
+    }
+
+    fn call_text_form(&mut self, form: u8, nested: bool, callee: String, simple_callee: bool, args: &[Expr], tail: bool) -> String {
         match form {
             1 => {
                 // prime form
@@ -888,10 +902,12 @@ impl<'a> Printer<'a> {
                     LValue::Var(v) => this.name(*v),
                     LValue::Field(o, n) => {
                         this.no_atom_parens += 1;
+                        this.plain_calls += 1;
                         let ot = match &o.kind {
                             EKind::Var(_) | EKind::Field(..) | EKind::Call(..) => this.expr(o),
                             _ => format!("({})", this.expr(o)),
                         };
+                        this.plain_calls -= 1;
                         this.no_atom_parens -= 1;
                         format!("{}.{}", ot, n)
                     }
@@ -933,7 +949,9 @@ impl<'a> Printer<'a> {
             }
             Stmt::Unreachable(uid) => {
                 let tr = self.begin();
-                self.unreachable_lines.insert(*uid, self.line);
+                // (a uid printed on two lines - a copied expression - cannot be attributed: marked with usize::MAX)
+                let line = if self.unreachable_lines.contains_key(uid) { usize::MAX } else { self.line };
+                self.unreachable_lines.insert(*uid, line);
                 self.finish("<!>", tr);
             }
             Stmt::Raw(t) => {
